@@ -337,3 +337,193 @@ def rf7i(run):
         if not ok:
             run.violation(rule, '<file scope>', 'pattern element %s' % ch, 'pattern "%s" of %s uses element "%s" which pattern_match_p does not '
                           'handle' % (r['pat'], r['code'], ch), file='mir-gen-x86_64.c', line=r['line'])
+
+
+# ---------------------------------------------------------------------------------------------
+# RF9m: ModRM/SIB selection of setup_mem against the ISA's special cases
+# ---------------------------------------------------------------------------------------------
+
+class SlotEval:
+    """evaluates a small C function whose results leave through pointer parameters: integer locals, `*p = e`, if/else,
+    compound assignment, calls of other functions of the unit (inlined).  Pointer parameters are bound to slot names."""
+
+    def __init__(self, tu):
+        from lib import enumflow as EF
+        self.tu = tu
+        self.preds = EF.Predicates(tu)
+        self.out = {}
+        self.depth = 0
+
+    def ev(self, e, env):
+        e0 = F.strip(e)
+        if e0['k'] == 'DeclRefExpr' and isinstance(env.get(e0['n']), str):
+            return env[e0['n']]
+        return self.preds.eval(e, {k: v for k, v in env.items()}, frozenset())
+
+    def call(self, fname, args, env):
+        g = self.tu.funcs.get(fname)
+        if g is None or g.body is None:
+            return
+        if self.depth > 5:
+            raise F.AnalysisBroken('SlotEval: call depth exceeded at %s' % fname)
+        env2 = {}
+        for prm, a in zip(g.params, args):
+            v = self.ev(a, env)
+            if v is not None:
+                env2[prm['n']] = v
+        self.depth += 1
+        try:
+            self.run(g.body, env2)
+        finally:
+            self.depth -= 1
+
+    def run(self, s, env):
+        """-> True if control falls through"""
+        if s is None:
+            return True
+        k = s['k']
+        if k == 'CompoundStmt':
+            for x in F.kids(s):
+                if not self.run(x, env):
+                    return False
+            return True
+        if k == 'IfStmt':
+            c = self.ev(s['c'][0], env)
+            if c is None:
+                raise F.AnalysisBroken('SlotEval: condition %s not evaluable' % F.src(s['c'][0])[:60])
+            c = bool(c) if not isinstance(c, str) else True
+            return self.run(s['c'][1], env) if c else (self.run(s['c'][2], env) if s['c'][2] is not None else True)
+        if k == 'ReturnStmt':
+            return False
+        if k == 'DeclStmt':
+            for d in s['decls']:
+                if d.get('init') is not None:
+                    v = self.ev(d['init'], env)
+                    if v is not None:
+                        env[d['n']] = v
+            return True
+        if k in F.CASTS or k == 'ParenExpr':
+            return self.run(s['c'][0], env)
+        if k == 'BinaryOperator' and s['op'] == '=':
+            l = F.strip(s['c'][0])
+            v = self.ev(s['c'][1], env)
+            if l['k'] == 'UnaryOperator' and l['op'] == '*':
+                p = self.ev(l['c'][0], env)
+                if not isinstance(p, str):
+                    raise F.AnalysisBroken('SlotEval: store through %s which is not a bound out-parameter' % F.src(l)[:40])
+                self.out[p] = v
+            elif l['k'] == 'DeclRefExpr':
+                if v is None:
+                    env.pop(l['n'], None)
+                else:
+                    env[l['n']] = v
+            return True
+        if k == 'CompoundAssignOperator' and s['op'] in ('+=', '-='):
+            l = F.strip(s['c'][0])
+            v = self.ev(s['c'][1], env)
+            if l['k'] == 'DeclRefExpr' and isinstance(env.get(l['n']), int) and isinstance(v, int):
+                env[l['n']] = env[l['n']] + (v if s['op'] == '+=' else -v)
+            else:
+                raise F.AnalysisBroken('SlotEval: compound assignment %s not evaluable' % F.src(s)[:50])
+            return True
+        if k == 'CallExpr':
+            c = s.get('callee')
+            if c and c in self.tu.funcs and self.tu.funcs[c].body is not None and c not in ('gen_assert', 'assert'):
+                self.call(c, F.call_args(s), env)
+            return True
+        if k in ('NullStmt',):
+            return True
+        if k in ('ForStmt', 'WhileStmt', 'DoStmt', 'SwitchStmt', 'GotoStmt'):
+            raise F.AnalysisBroken('SlotEval: %s not modelled' % k)
+        return True
+
+
+def rf9m(run):
+    rule = 'RF9m'
+    run.rule(rule, 'setup_mem: for every base register (or none) x index register (or none) x displacement class {0, 8-bit, 32-bit} x '
+                   'scale, the ModRM/SIB/REX fields it selects decode, by the ISA rules (rm=4 -> SIB; mod=0 with rm=5 -> RIP-relative; '
+                   'SIB base=5 with mod=0 -> no base + disp32; SIB index=4 without REX.X -> no index), to exactly the requested base, '
+                   'index, scale and displacement; the displacement slot that mod announces is the one that is filled')
+    gen = run.tu('gen')
+    f = gen.func('setup_mem')
+    run.functions_analysed.add(('gen', 'setup_mem'))
+    regs = dict(gen.enum_by_member('AX_HARD_REG')[1])
+    names = ['AX', 'CX', 'DX', 'BX', 'SP', 'BP', 'SI', 'DI', 'R8', 'R9', 'R10', 'R11', 'R12', 'R13', 'R14', 'R15']
+    hw = {}
+    for i, nme in enumerate(names):
+        v = regs.get(nme + '_HARD_REG')
+        if v != i:
+            raise F.AnalysisBroken('hard register %s has number %s, the rule assumes the hardware numbering %d' % (nme, v, i))
+        hw[nme] = i
+    NONE = 4294967295
+    pn = [p['n'] for p in f.params]
+    want_params = ['mem', 'mod', 'rm', 'scale', 'base', 'rex_b', 'index', 'rex_x', 'disp8', 'disp32']
+    if pn != want_params:
+        raise F.AnalysisBroken('setup_mem parameters are %s' % pn)
+    n = 0
+    first = None
+    for bname, b in [('none', NONE)] + list(hw.items()):
+        for iname, ix in [('none', NONE)] + [(k_, v_) for k_, v_ in hw.items() if k_ != 'SP']:
+            for dname, d in (('0', 0), ('disp8', 16), ('disp32', 1000)):
+                for sc in (1, 8):
+                    se = SlotEval(gen)
+                    env = {'mem.base': b, 'mem.index': ix, 'mem.disp': d, 'mem.scale': sc}
+                    for p in want_params[1:]:
+                        env[p] = 'slot:' + p
+                    se.run(f.body, env)
+                    o = se.out
+                    mod, rm = o.get('slot:mod'), o.get('slot:rm')
+                    rex_b, rex_x = o.get('slot:rex_b') or 0, o.get('slot:rex_x') or 0
+                    problems = []
+                    dec_base = dec_index = None
+                    dec_disp = None
+                    if rm is None:
+                        problems.append('rm not set')
+                    elif rm != 4:
+                        if (mod or 0) == 0 and rm == 5:
+                            dec_base, dec_disp = 'RIP', 'disp32'
+                        else:
+                            dec_base = rm + 8 * rex_b
+                            dec_disp = {0: None, 1: 'disp8', 2: 'disp32'}.get(mod or 0)
+                    else:
+                        sb, sx = o.get('slot:base'), o.get('slot:index')
+                        if sb is None or sx is None:
+                            problems.append('SIB byte announced (rm=4) but base/index not set')
+                        else:
+                            idx = sx + 8 * rex_x
+                            dec_index = None if idx == 4 else idx
+                            if sb == 5 and (mod or 0) == 0:
+                                dec_base, dec_disp = None, 'disp32'
+                            else:
+                                dec_base = sb + 8 * rex_b
+                                dec_disp = {0: None, 1: 'disp8', 2: 'disp32'}.get(mod or 0)
+                            if dec_index is not None:
+                                wsc = {1: 0, 2: 1, 4: 2, 8: 3}[sc]
+                                if o.get('slot:scale') != wsc:
+                                    problems.append('scale field %s for scale %d' % (o.get('slot:scale'), sc))
+                    if not problems:
+                        if dec_base != (None if b == NONE else b):
+                            problems.append('decodes to base %s' % ('none' if dec_base is None else dec_base if isinstance(dec_base, str) else names[dec_base]))
+                        if dec_index != (None if ix == NONE else ix):
+                            problems.append('decodes to index %s' % ('none' if dec_index is None else names[dec_index]))
+                        if dec_disp is None and d != 0:
+                            problems.append('no displacement encoded for %d' % d)
+                        if dec_disp == 'disp8' and not (-128 <= d <= 127):
+                            problems.append('8-bit displacement for %d' % d)
+                        if dec_disp is not None and ('slot:' + dec_disp) not in o:
+                            problems.append('mod announces %s but that slot is not filled' % dec_disp)
+                        if dec_disp != 'disp8' and 'slot:disp8' in o or dec_disp != 'disp32' and 'slot:disp32' in o:
+                            problems.append('a displacement slot is filled that mod does not announce')
+                    n += 1
+                    ok = not problems
+                    run.ob(rule, (bname, iname, dname, sc), ok, {'base': bname, 'index': iname, 'disp': dname, 'scale': sc,
+                                                                'mod': mod, 'rm': rm, 'problems': problems})
+                    if not ok and first is None:
+                        first = (bname, iname, dname, sc, mod, rm, problems)
+    if first:
+        bname, iname, dname, sc, mod, rm, problems = first
+        run.violation(rule, f, 'encoding of (%s,%s,%s) disp %s' % (bname, iname, sc, dname),
+                      'setup_mem encodes base=%s index=%s scale=%d displacement=%s as mod=%s rm=%s, which %s: the instruction addresses '
+                      'the wrong location (and may swallow following code bytes as a displacement)'
+                      % (bname, iname, sc, dname, mod, rm, '; '.join(problems)), line=f.line)
+    run.min_instances(rule, 1000)
